@@ -302,7 +302,9 @@ class Gen:
         db = []
         for _ in range(r.randrange(0, 9)):
             g = r.choice(GIDS)
-            ns = [r.choice(self.names + ["", "ghost"]) for _ in range(r.choice([0, 0, 1, 2, 3, 6]))]
+            # unknown names include all-digit ones that spell a UID somebody else holds: a name is looked up, never parsed
+            ns = [r.choice(self.names + ["", "ghost"] + [str(u) for u in UIDS[:4] if u is not None])
+                  for _ in range(r.choice([0, 0, 1, 2, 3, 6]))]
             db.append((g, ns))
         if kind == "huge":
             n = r.choice([140, 300, 700, 2500])
